@@ -384,7 +384,7 @@ func TestC10RoundTrip(t *testing.T) {
 		hostile := rapid.IntRange(0, 4).Draw(rt, "hostile-names") == 0
 		if hostile {
 			// names that contain '-', '.', '_' and digits: the scanner must keep them apart from operators and numbers
-			o.ElNames = []string{"a-1", "b.c", "_x", "a1", "div", "and-x", "é1", "中文", "имя-x"}
+			o.ElNames = []string{"a-1", "b.c", "_x", "a1", "div", "and-x", "é1", "中文", "имя-x", "n" + strings.Repeat("ab", 33)} // the last one is 67 bytes long
 			o.AtNames = []string{"x-y", "y.1", "ключ"}
 		}
 		doc := xgen.Doc(rt, o)
